@@ -13,8 +13,9 @@
 //!    Z       `s<blk>` stored deflate blocks of at most <blk> bytes | `f` flate2 default level
 //!    ANC     ancillary chunks to add: subset of `g` (gAMA after IHDR), `k` (bKGD after PLTE),
 //!            `t` (tEXt before IEND), `z` (bytes after IEND); `-` = none
-//!    MUT     `-` = PNG is the encoding of the description; otherwise a label of the mutation
-//!            applied to the file bytes (the description is of the un-mutated image)
+//!    MUT     `-` = PNG is the encoding of the description; otherwise `<label>:<ext>`: a label of
+//!            the mutation applied to the file bytes (the description is of the un-mutated
+//!            image) and what flate2 makes of the file's IDAT payload (`E` error, else hex)
 //!    ROWS    the image: H packed scanlines of ceil(W*DEPTH*channels/8) bytes (unfiltered,
 //!            not interlaced), hex
 //!    PNG     the file bytes handed to `Image::from_png_data`, hex
@@ -758,6 +759,40 @@ fn mutate(rng: &mut Rng, d: &Desc) -> (String, Vec<u8>) {
     (label.to_string(), m)
 }
 
+/// zlib inflate is an external parameter of the model: for mutated files the harness ships what
+/// flate2 makes of the IDAT payload (lenient chunk walk, same read loop as `decompress_idat`);
+/// the model consults it only where its own stored-block inflater cannot tell.
+fn ext_inflate(png: &[u8]) -> String {
+    use std::io::Read;
+    let mut z = vec![];
+    let mut p = 8usize;
+    while p + 8 <= png.len() {
+        let l = u32::from_be_bytes([png[p], png[p + 1], png[p + 2], png[p + 3]]) as usize;
+        if p + 12 + l > png.len() {
+            break;
+        }
+        let ty = &png[p + 4..p + 8];
+        if ty == b"IDAT" {
+            z.extend_from_slice(&png[p + 8..p + 8 + l]);
+        }
+        if ty == b"IEND" {
+            break;
+        }
+        p += 12 + l;
+    }
+    let mut dec = flate2::read::ZlibDecoder::new(&z[..]);
+    let mut out = vec![];
+    let mut buf = [0u8; 16384];
+    loop {
+        match dec.read(&mut buf) {
+            Ok(0) => break,
+            Ok(n) => out.extend_from_slice(&buf[..n]),
+            Err(_) => return "E".into(),
+        }
+    }
+    hex(&out)
+}
+
 fn tiny_jpeg(rng: &mut Rng, w: u16, h: u16, comps: u8, sof: u8) -> Vec<u8> {
     let mut v = vec![0xFF, 0xD8];
     // APP0
@@ -838,6 +873,7 @@ fn gen(rng: &mut Rng, tier: Tier) -> Vec<Case> {
             d.z = "s7".into();
         }
         let (label, m) = mutate(rng, &d);
+        let label = format!("{}:{}", label, ext_inflate(&m));
         let cfg = if rng.chance(1, 2) { "u" } else { "c" };
         cases.push(Case::new(show_png_req(cfg, &d, &label, &m), format!("png-mut {} nt", label)));
     }
